@@ -10,6 +10,30 @@ CLAIMS = {
  "C08": ("Member sequencing of gzip.Reader decided structurally: one source object shared by header parser, inflater and trailer reader; next header only after a verified trailer and only in multistream mode; single-member mode returns io.EOF without touching the source; digest/size restart. Exact stream-end positioning (the runtime part) is not decided here.",
          "same trusted base as C07; depends on C05 for exact consumption.",
          "SSA access-path identity of the source field, dominating branch facts, barrier reachability", "DESIGN.md 4/C08"),
+ "C03": ("Four structural necessary conditions of rejecting malformed input, decided for all inputs at once: lookup-table builders clear what they do not assign (short table, copy prefix, long-table groups), internal outcomes are exhaustively classified, the assembly loop's errno mapping is total and precedes any fallback, and step's error vocabulary is closed. Termination, panic freedom and the accept/reject arithmetic are not decided.",
+         "go/ssa dominators and CFG represent the source; assembly clauses come from the checker's own Plan 9 assembly front end.",
+         "sibling-deviance rule over table builders (barrier reachability with loop-aware zero stores), call-graph closure of returned sentinels, edge-pruned path search on errno, value-source closure", "DESIGN.md 4/C03"),
+ "C05": ("Decides which call sites may put a private read-ahead buffer in front of a caller's reader (type-assertion facts for *bufio.Reader and io.ByteReader), the linear normal form and guard of the give-back arithmetic, one-source-field for zlib, and that held look-ahead bits are never discarded by constant stores. Five ByteReader wrapping sites are genuine known findings (listed by key). The runtime byte count at stream end is not decided.",
+         "bufio.NewReader re-wraps readers below the default size (std contract); known findings are matched by rule+construct key only.",
+         "dominating type-assertion facts, linear normalisation of SSA integer expressions, access-path identity", "DESIGN.md 4/C05"),
+ "C09": ("Decides that the compression trigger and all state updates of Accumulate depend only on accumulated state (data is used only as copy source), and that Write calls Accumulate only with bytes left and Compress only under the trigger. Everything inside the compressors is not decided.",
+         "same trusted base; clause is necessary, not sufficient, for byte-identical output across partitions.",
+         "use-closure of the data parameter, control-dependence of the Compress call, dominating facts", "DESIGN.md 4/C09"),
+ "C10": ("Block-framing discipline decided on every path of both accelerated compressors in both arms: alignment only under the final flag or inside stored-block writers, an end-of-block emission after every header, the order encode -> empty stored block -> destination write in Flush, constant flush/final flags, marker bytes and header bits. Bit-exact block contents are not decided.",
+         "encoders called in the loop emit the end-of-block code when they consume the last byte (checked only as 'contain litCode(256)').",
+         "dominating-fact identity on the eos value, barrier reachability with provably-entered loops, constant operand tables", "DESIGN.md 4/C10"),
+ "C11": ("Decides bounded demand on the source (Peek argument normal forms, no ReadFull in the inflater, fixed-size container reads) and that decoded data is delivered before errors/EOF (replay return behind the nothing-pending edge; EOF produced only when drained). Progress of the decode loops on partial input is not decided.",
+         "bufio.Reader.Peek(n) returns as soon as n bytes are buffered (std contract).",
+         "linear normal forms of SSA integer expressions, dominating facts", "DESIGN.md 4/C11"),
+ "C12": ("Reset completeness for the nine writer-side stateful types: every access path any function may write through a pointer to the object (field-effect summaries closed over resolved calls; assembly by confirmed write sets) is re-initialised by Reset on every success path, or is scratch (table with reasons), or a nil-guarded lazy init whose object Reset resets. Equality of reset values with constructor values is not decided.",
+         "scratch-table lines are justified by reading; callee effects are may-effects; must-coverage is decided in the Reset method itself.",
+         "interprocedural field-effect summaries + barrier reachability in Reset (loop-aware), type-flow resolution of interface calls", "DESIGN.md 4/C12"),
+ "C13": ("Reset completeness for decompressor/inflate, gzip.Reader, zlib.reader with the same machinery, plus: a Resetter that ignores its dictionary is only called with nil, and nested inflaters are reset or replaced on every success path. Observability of stale table/history contents is C03's concern.",
+         "same as C12.",
+         "interprocedural field-effect summaries + barrier reachability; call-site argument check over type-flow-resolved invokes", "DESIGN.md 4/C13"),
+ "C17": ("Sufficient condition for non-interference in Go code: no function that can run after initialisation writes memory reachable from a package variable; no reference into a package variable is stored in an instance or returned; no goroutines/sync; assembly stores never use a global base. Positive controls prove the zero-expected rules can fire. Equality of outputs under concurrency follows but is not checked.",
+         "field-effect summaries are may-write over resolved callees; unresolved calls fail the check; std library internals trusted.",
+         "interprocedural write-effect summaries rooted at globals, reference-flow check, census, assembly operand dataflow", "DESIGN.md 4/C17"),
  "C14": ("Error discipline of the three Writer types decided on all paths and both dispatch arms: destination errors are recorded in the sticky field, every destination call sits behind a sticky-nil test, no function below drops a destination error, and no second destination call is reachable on a failure edge. These are necessary for 'fails without touching the destination again'; buffer-bound safety and stream validity are not decided.",
          "calls leaving the repository (io.Writer.Write, compress/flate.Writer) behave as documented; interface calls are resolved by a type-flow analysis over the repository's own stores.",
          "SSA def-use error tracking with store-to-load forwarding, CFG reachability with edge pruning on error tests, call-graph reachability of destination writes", "DESIGN.md 4/C14"),
